@@ -478,3 +478,26 @@ func verifAttrs32(where int) {
 
 func VerifHarness_C01_rt_attrs32() { verifAttrs32(rt.Param("WHERE")) }
 func VerifHarness_C03_rt_attrs32() { verifAttrs32(rt.Param("WHERE")) }
+
+// VerifHarness_C03_rt_shape: grouping shapes for metrics - SLOTS slots, each a ResourceMetrics with resource A or
+// B (symbolic) holding one ScopeMetrics with scope X or Y (symbolic, different attributes) holding one gauge
+// metric (distinct concrete name) with one point: equal resources/scopes may be merged and reordered, but every
+// metric must come back under a resource and a scope with the original content.
+func VerifHarness_C03_rt_shape() {
+	p, c := verifProducer(), verifConsumer()
+	for b := 0; b < rt.Param("BATCHES"); b++ {
+		md := pmetric.NewMetrics()
+		for s := 0; s < rt.Param("SLOTS"); s++ {
+			rm := md.ResourceMetrics().AppendEmpty()
+			verifShapeResource(rm.Resource(), "res")
+			sm := rm.ScopeMetrics().AppendEmpty()
+			verifShapeScope(sm.Scope(), "scope")
+			m := sm.Metrics().AppendEmpty()
+			m.SetName(string([]byte{'m', byte('0' + b), byte('0' + s)}))
+			dp := m.SetEmptyGauge().DataPoints().AppendEmpty()
+			dp.SetTimestamp(pcommon.Timestamp(100 + 10*b + s))
+			dp.SetIntValue(int64(s + 1))
+		}
+		verifRoundTripMetrics(p, c, md, "C03.rt")
+	}
+}
